@@ -443,17 +443,19 @@ class FakeReactor(task.Clock):
 class World(object):
     """One execution's environment.  Use as a context manager."""
 
-    def __init__(self):
+    def __init__(self, reset=True):
         self.seq = 0
         self.trap = LogTrap()
         self.reactor = FakeReactor(self)
+        self._reset = reset          # False: continue in the process state the previous World left (a later call in one process)
 
     def tick(self):
         self.seq += 1
         return self.seq
 
     def __enter__(self):
-        reset_globals()
+        if self._reset:
+            reset_globals()
         self.trap.start()
         return self
 
@@ -492,8 +494,44 @@ def _memoised_functions():
     return _CACHED
 
 
+_MODULE_STATE = {}
+
+
+def _reset_module_containers():
+    """module-level dicts / lists / sets of the library (caches, registries) go back to what they held when first seen, so that
+    no execution sees what an earlier one left there; state that builds up WITHIN an execution is part of that execution"""
+    import sys
+    for name, mod in list(sys.modules.items()):
+        if not (name == 'txtorcon' or name.startswith('txtorcon.')) or mod is None:
+            continue
+        snap = _MODULE_STATE.get(name)
+        if snap is None:
+            snap = _MODULE_STATE[name] = {}
+            for k, v in list(vars(mod).items()):
+                if type(v) in (dict, list, set) and not k.startswith('__'):
+                    snap[k] = (v, type(v)(v))
+            continue
+        for k, (obj, orig) in snap.items():
+            if type(obj) is dict:
+                if obj != orig or len(obj) != len(orig):
+                    obj.clear()
+                    obj.update(orig)
+            elif type(obj) is list:
+                if obj != orig:
+                    obj[:] = orig
+            elif obj != orig:
+                obj.clear()
+                obj.update(orig)
+        # containers that appeared later (created lazily at module level)
+        for k, v in list(vars(mod).items()):
+            if type(v) in (dict, list, set) and not k.startswith('__') and k not in snap:
+                snap[k] = (v, type(v)())
+                v.clear()
+
+
 def reset_globals():
     """module-level state txtorcon keeps between calls"""
+    _reset_module_containers()
     for f in _memoised_functions():
         try:
             f.cache_clear()
